@@ -108,6 +108,14 @@ func (d *Decoder) PopUint() uint32 {
 }
 
 func (d *Decoder) PopRawBytes(size int) []byte {
+	if d.err != nil {
+		return nil
+	}
+	if size < 0 || size > d.buf.Len() {
+		d.err = fmt.Errorf("can't read %v raw bytes: %v left", size, d.buf.Len())
+		return nil
+	}
+
 	val := make([]byte, size)
 	d.read(val)
 	if d.err != nil {
@@ -195,6 +203,12 @@ func (d *Decoder) popVector(as reflect.Type, ignoreCRC bool) any {
 		return nil
 	}
 
+	// every element takes at least one byte of input: a larger count can't be satisfied, don't allocate it
+	if int64(size) > int64(d.buf.Len()) {
+		d.err = fmt.Errorf("vector size %v is bigger than the %v bytes left", size, d.buf.Len())
+		return nil
+	}
+
 	x := reflect.MakeSlice(reflect.SliceOf(as), int(size), int(size))
 	for i := 0; i < int(size); i++ {
 		var val reflect.Value
@@ -247,6 +261,11 @@ func (d *Decoder) PopMessage() []byte {
 
 		realSize = int(binary.LittleEndian.Uint32(val))
 		lenNumberSize = WordLen
+	}
+
+	if realSize > d.buf.Len() {
+		d.err = fmt.Errorf("message of %v bytes is bigger than the %v bytes left", realSize, d.buf.Len())
+		return nil
 	}
 
 	// этот буффер и будет уже реальным собщением
